@@ -715,6 +715,55 @@ def UC(e):
     return ast.unparse(canon_eq(e)).replace(" ", "")
 
 
+def alpha_canon(e):
+    """a copy of e in which every variable bound by a comprehension / generator expression is called v__0, v__1, .. in binding order (a
+    comprehension's variables are its own: what they are called cannot matter).  The first iterable belongs to the enclosing scope."""
+    import copy
+    e = copy.deepcopy(e)
+    counter = [0]
+
+    class Ren(ast.NodeTransformer):
+        def __init__(self, m):
+            self.m = m
+
+        def visit_Name(self, n):
+            if n.id in self.m:
+                return ast.copy_location(ast.Name(id=self.m[n.id], ctx=n.ctx), n)
+            return n
+
+    class T(ast.NodeTransformer):
+        def _comp(self, n):
+            if any(isinstance(y, (ast.Lambda, ast.NamedExpr)) for y in ast.walk(n)):
+                return self.generic_visit(n)
+            m = {}
+            for g in n.generators:
+                for x in ast.walk(g.target):
+                    if isinstance(x, ast.Name) and x.id not in m and x.id != "_":
+                        m[x.id] = f"v__{counter[0]}"
+                        counter[0] += 1
+            r = Ren(m)
+            first_iter = n.generators[0].iter
+            for fld in ("elt", "key", "value"):
+                if hasattr(n, fld):
+                    setattr(n, fld, r.visit(getattr(n, fld)))
+            for i, g in enumerate(n.generators):
+                g.target = r.visit(g.target)
+                g.ifs = [r.visit(c) for c in g.ifs]
+                if i > 0:
+                    g.iter = r.visit(g.iter)
+            n.generators[0].iter = first_iter
+            return self.generic_visit(n)          # then the comprehensions inside (their own variables shadow)
+        visit_ListComp = visit_SetComp = visit_DictComp = visit_GeneratorExp = _comp
+    return T().visit(e)
+
+
+def UA(e):
+    """text of an expression (or of source text) with comprehension variables called by position (see alpha_canon); whitespace removed"""
+    if isinstance(e, str):
+        e = ast.parse(e, mode="eval").body
+    return ast.unparse(alpha_canon(e)).replace(" ", "")
+
+
 def argv(c):
     """the arguments of a call in written order, positional ones first then keyword values.  After engine.normalize.keywordise_calls a call
     of a known repository callable carries its former positional arguments as leading keywords in parameter order, so argv(c)[i] is what
